@@ -103,11 +103,13 @@ type c14Variant struct {
 	lookback uint64
 	archival bool
 	tracking int64
+	syncMode int // sqlite synchronous mode of the node (0 off, 1 normal, 2 full)
+	noLRU    bool
 	trie     merkletrie.MemoryConfig
 }
 
 func (v c14Variant) String() string {
-	return fmt.Sprintf("policy=%s MaxAcctLookback=%d archival=%v tracking=%d trie=%+v", v.policy, v.lookback, v.archival, v.tracking, v.trie)
+	return fmt.Sprintf("policy=%s MaxAcctLookback=%d archival=%v tracking=%d sqlite-sync=%d DisableLedgerLRUCache=%v trie=%+v", v.policy, v.lookback, v.archival, v.tracking, v.syncMode, v.noLRU, v.trie)
 }
 
 func c14Trie(r *kit.Rand, def merkletrie.MemoryConfig) merkletrie.MemoryConfig {
@@ -130,8 +132,8 @@ func TestVerifC14(t *testing.T) {
 	hlRegisterProtos()
 	defTrie := trackerdb.TrieMemoryConfig
 	defer func() { trackerdb.TrieMemoryConfig = defTrie }()
-	nh := c.N(3, 24)
-	blocks := c.N(52, 120)
+	nh := c.N(4, 24)
+	blocks := c.N(56, 120)
 	for h := 0; h < nh && c.Violations() < 5; h++ {
 		r := c.Rand(14, uint64(h))
 		cfg := hlConfig{
@@ -173,7 +175,7 @@ func TestVerifC14(t *testing.T) {
 		policies := []string{"every", "batch", "syncer", "restart", "prng"}
 		for vi, pol := range policies {
 			rv := c.Rand(14, uint64(h), uint64(1+vi))
-			v := c14Variant{policy: pol, lookback: []uint64{1, 2, 4, 8, 16}[rv.Intn(5)], archival: rv.Bool(), tracking: []int64{1, 2}[rv.Intn(2)], trie: c14Trie(rv, defTrie)}
+			v := c14Variant{policy: pol, lookback: []uint64{1, 2, 4, 8, 16}[rv.Intn(5)], archival: rv.Bool(), tracking: []int64{1, 2}[rv.Intn(2)], syncMode: []int{0, 0, 1, 2}[rv.Intn(4)], noLRU: rv.Chance(2, 3), trie: c14Trie(rv, defTrie)}
 			if pol == "restart" && v.lookback > 4 {
 				v.lookback = []uint64{1, 2, 4}[rv.Intn(3)] // keep many catchpoints inside the run
 			}
@@ -181,6 +183,9 @@ func TestVerifC14(t *testing.T) {
 			lc.MaxAcctLookback = v.lookback
 			lc.Archival = v.archival
 			lc.CatchpointTracking = v.tracking
+			lc.LedgerSynchronousMode = v.syncMode
+			lc.DisableLedgerLRUCache = v.noLRU
+			lc.TxPoolSize, lc.VerifiedTranscationsCacheSize = 100, 100 // (the verified-transaction cache plays no role here; its default size dominates the cost of a restart)
 			trackerdb.TrieMemoryConfig = v.trie
 			b := cpTwin(a, rv, lc, pol)
 			o := c14NewObs(fmt.Sprintf("replay-%d-%s", vi, pol), v.String())
@@ -211,7 +216,7 @@ func TestVerifC14(t *testing.T) {
 					if rv.Chance(1, 5) {
 						cpFlush(b)
 					}
-					if f, ok := cpPendingFirstStage(b); ok && rv.Chance(1, 2) {
+					if f, ok := cpPendingFirstStage(b); ok && rv.Chance(1, 3) {
 						o.sample(c, b)
 						if rv.Bool() {
 							b.reload()
